@@ -5,7 +5,7 @@ pub use crate::verif_spec::*;
 #[allow(unused_imports)]
 pub use crate::verif_extern::*;
 #[allow(unused_imports)]
-pub use crate::verif_types::{BytesSpec, rng_drawn};
+pub use crate::verif_types::{BytesSpec, ResizableSpec, rng_drawn, axiom_rview_is_bview};
 #[allow(unused_imports)]
 pub use crate::spec_poly1305::*;
 #[allow(unused_imports)]
